@@ -318,13 +318,13 @@ PROPS = {
         level="exploration",
         engine="simnet",
         technique="runtime monitoring with a sequential oracle: every scenario is executed twice from identically built simulated segments - tasks interleaved by a seeded executor at every await with per-frame latencies 0..500 us delivered in any order, and each task alone - and the per-task result sequences and the device-side end state are compared; the same comparison with one OS thread per task under ThreadSanitizer and Miri, where a tool report is a violation",
-        level_text=("2..4 cooperative tasks (process-data cycles of different groups with per-task output patterns, register write/read/status on private RAM areas, SDO reads (expedited and normal) and writes on distinct devices) over 2..8 devices in 2..3 groups, storage of 4 (just enough: at most 3 single-frame requests in flight), 8 or 16 slots, latency profiles 0, 0..50, 0..500, 100..500 us with reordering. "
+        level_text=("2..4 cooperative tasks (process-data cycles of different groups with per-task output patterns, register write/read/status on private RAM areas, SDO reads (expedited, normal, and - in a quarter of the scenarios - 1 KiB segmented uploads through 32 byte mailboxes that keep their first response held while the other tasks use several hundred datagram indices, i.e. across the wrap of the 8 bit index) and writes on distinct devices) over 2..8 devices in 2..3 groups, storage of 4 (just enough: at most 3 single-frame requests in flight), 8 or 16 slots, latency profiles 0, 0..50, 0..500, 100..500 us with reordering. "
                     "Held = identical result sequences per task, no operation failing only when shared, identical output memory and download logs on the devices."),
         level_note="The seeded cooperative executor gives replayable interleavings at every await; true parallelism (one OS thread per task, the network on another, PDU-loop hooks injecting yields) runs the same scenarios and the same sequential oracle under ThreadSanitizer (both tiers) and Miri (thorough), with timeouts made effectively infinite so that a descheduled thread cannot look like a silent device. Tasks never touch a group's image while that group's cycle is in flight (the documented lock contract).",
         rule="case = one scenario (network, task set, storage size, latency profile, executor seed); distinct by scenario hash",
         assumptions=["operations of different tasks commute (different groups / devices / RAM areas)"],
         min_distinct=dict(quick=300, thorough=30000),
-        required_counters=["task.cycle", "task.register", "task.sdo", "slots.4", "slots.8", "frames_interleaved", "threads.cases", "threads.hook_hits"],
+        required_counters=["task.cycle", "task.register", "task.sdo", "task.sdo-long-segmented", "slots.4", "slots.8", "frames_interleaved", "threads.cases", "threads.hook_hits"],
         runs=[native("tasks-release", "c20", "release"), native("tasks-debug", "c20", "debug", args={"scale-pct": dict(quick=20, thorough=5)}),
               # real parallelism: one OS thread per task + a network/clock thread on one MainDevice, same sequential oracle,
               # under ThreadSanitizer (a report is a violation) ...
